@@ -8,6 +8,7 @@ tree: `Gen.journalPairs` (encodeJournalName), `Gen.jobJournalRe`,
 import Martian.ForkName
 import Proofs.ForkName
 import Proofs.ForkNameInj
+import Proofs.ForkNameDiv
 import Proofs.ForkRoute
 import Gen.Facts
 
@@ -34,6 +35,11 @@ continues *at* the map part (`start+i`), so the map key is written.  Fails on a
 tree where it continues after it (`start+i+1`: the key is dropped and the forks
 of the inner map call share one directory). -/
 theorem forkId_reenters_at_map_part : Gen.forkIdReenters = true := by decide
+
+/-- A part whose range is empty is skipped by `ForkId.forkId` (`continue`), it
+does not end the id.  Fails on a tree where the id stops there (all static
+forks below an empty run-time outer fork were then named `fork0`). -/
+theorem forkId_skips_empty_parts : Gen.forkIdSkipsEmpty = true := by decide
 
 /-- `fork` itself is not touched by the replacer, so what follows `<fqid>.fork`
 in a fork's fqname is the encoding of what follows `fork` in its id. -/
@@ -143,54 +149,121 @@ theorem chunk_names_distinct (n i j : Nat) (h : chunkName n i = chunkName n j) :
 /-- **Fork names are injective in the fork-part tuple**, for every nesting
 of array and map parts: any depth, statically or run-time sized arrays of any
 length (flat indices, `_`-separated groups, zero padding at every width), map
-keys over all byte strings.  Two forks of one call (`sameShape`: the same
-kinds, lengths, key sets and static-ness position by position) whose indices /
-keys are in range and whose id strings are equal are the same fork.  Stated
-against the regenerated recursion target of `ForkId.forkId`. -/
+keys over all byte strings, with unresolved parts and parts of empty range
+anywhere in between (they are skipped).  Two forks of the same shape
+(`sameShape`: the same kinds, lengths, key sets and static-ness position by
+position) whose indices / keys are in range (`partOk`) and whose id strings are
+equal are the same fork.  Stated against the regenerated recursion target and
+empty-part behaviour of `ForkId.forkId`.
+
+What still shares a name, exactly: (1) part lists that differ only in the
+*payload of skipped parts* — `sameShape` demands equal payload there, so they
+are outside the theorem: `[undet, x]`, `[empty, x]` and `[arr i of 0, x]` all
+render like `[x]` prefixed by nothing (next theorem).  These are one and the
+same fork at different stages of resolution (unresolved → found empty); the
+runtime renames the fork (`updateId`) instead of creating a second one, so they
+never coexist.  (2) a list consisting of a single unresolved / empty part is
+`fork0` (`ForkSourcePart.ForkIdString`), as is the fork with all indices 0:
+again the same fork before and after resolution. -/
 theorem forkName_injective (a b : List Part) (hs : sameShape a b = true)
-    (hva : a.all partValid = true) (hvb : b.all partValid = true)
-    (h : forkIdString Gen.forkIdReenters a = forkIdString Gen.forkIdReenters b) : a = b := by
-  rw [forkId_reenters_at_map_part] at h
-  exact forkIdString_inj a b hs hva hvb h
+    (hva : a.all partOk = true) (hvb : b.all partOk = true)
+    (h1 : a.length = 1 → a.all partValid = true) (h1' : b.length = 1 → b.all partValid = true)
+    (h : forkIdString Gen.forkIdReenters Gen.forkIdSkipsEmpty a
+        = forkIdString Gen.forkIdReenters Gen.forkIdSkipsEmpty b) : a = b := by
+  rw [forkId_reenters_at_map_part, forkId_skips_empty_parts] at h
+  exact forkIdString_inj a b hs hva hvb h1 h1' h
+
+/-- **Forks of one call never share a name, also when their ids have different
+shapes.**  Under a run-time sized call the inner parts of two forks may differ
+in length, key set or emptiness from one outer fork to the next, so the forks
+of a node are not all of the same shape.  But any two of them agree on a
+(possibly empty) prefix `p` of parts and then name a different index of the
+same array call or a different key of the same map call (`diverge x y`).  Then
+their id strings differ, whatever parts `ra`, `rb` follow on either side
+(resolved parts in range, parts found empty, unresolved parts; the two tails
+need not have the same shape, only the same number of parts). -/
+theorem forkName_distinct_after_divergence (p : List Part) (x y : Part) (ra rb : List Part)
+    (hd : diverge x y = true) (hp : p.all partOk = true) (hra : ra.all partOk = true) (hrb : rb.all partOk = true)
+    (hlen : ra.length = rb.length) :
+    forkIdString Gen.forkIdReenters Gen.forkIdSkipsEmpty (p ++ x :: ra)
+      ≠ forkIdString Gen.forkIdReenters Gen.forkIdSkipsEmpty (p ++ y :: rb) := by
+  rw [forkId_reenters_at_map_part, forkId_skips_empty_parts]
+  exact forkIdString_diverge p x y ra rb hd hp hra hrb hlen
+
+/-- … and so do their journal names. -/
+theorem forkJournalName_distinct_after_divergence (p : List Part) (x y : Part) (ra rb : List Part) (ia ib : Bytes)
+    (hd : diverge x y = true) (hp : p.all partOk = true) (hra : ra.all partOk = true) (hrb : rb.all partOk = true)
+    (hlen : ra.length = rb.length)
+    (ha : forkIdString Gen.forkIdReenters Gen.forkIdSkipsEmpty (p ++ x :: ra) = some ia)
+    (hb : forkIdString Gen.forkIdReenters Gen.forkIdSkipsEmpty (p ++ y :: rb) = some ib) :
+    journalEnc Gen.journalPairs ia ≠ journalEnc Gen.journalPairs ib := by
+  intro h
+  have := journal_name_injective ia ib h
+  exact forkName_distinct_after_divergence p x y ra rb hd hp hra hrb hlen (by rw [ha, hb, this])
+
+-- under outer fork 0 the inner run-time source is empty, under outer fork 1 it has 3 elements and a map call follows
+example :
+    let ks : List Bytes := [[0x61], [0x62]]
+    diverge (.arr 0 2 true) (.arr 1 2 true) = true ∧
+    ([.empty, .undet] : List Part).all partOk = true ∧
+    ([.arr 2 3 false, .key [0x62] ks false] : List Part).all partOk = true := by decide
+
+/-- Skipped parts contribute nothing: an unresolved outer part, an outer part
+found empty, and an outer array part of length 0 give the inner forks the same
+names — the names they had before the outer source was known. -/
+theorem skipped_parts_share_names (x : Part) :
+    forkIdString true true [.undet, x, .undet] = forkIdString true true [.empty, x, .undet] ∧
+    forkIdString true true [.undet, x, .undet] = forkIdString true true [.arr 5 0 false, x, .undet] := by
+  cases x <;> simp [forkIdString, forkIdGo]
+
+/-- Negative witness (an empty part as found: the id stopped there): under an
+outer fork whose run-time source is empty, the inner static forks 1 and 2 of 3
+are both `fork0`; skipping the empty part they are `fork1` and `fork2`. -/
+theorem forks_under_empty_outer_collide_as_found :
+    forkIdString true false [.empty, .arr 1 3 true] = some sFork0 ∧
+    forkIdString true false [.empty, .arr 2 3 true] = some sFork0 ∧
+    forkIdString true true [.empty, .arr 1 3 true] ≠ forkIdString true true [.empty, .arr 2 3 true] := by decide
 
 /-- … hence so are the fork directories `<node path>/<fork id>` … -/
 theorem forkDir_injective (nodePath : Bytes) (a b : List Part) (ia ib : Bytes)
-    (hs : sameShape a b = true) (hva : a.all partValid = true) (hvb : b.all partValid = true)
-    (ha : forkIdString Gen.forkIdReenters a = some ia) (hb : forkIdString Gen.forkIdReenters b = some ib)
+    (hs : sameShape a b = true) (hva : a.all partOk = true) (hvb : b.all partOk = true)
+    (h1 : a.length = 1 → a.all partValid = true) (h1' : b.length = 1 → b.all partValid = true)
+    (ha : forkIdString Gen.forkIdReenters Gen.forkIdSkipsEmpty a = some ia) (hb : forkIdString Gen.forkIdReenters Gen.forkIdSkipsEmpty b = some ib)
     (h : nodePath ++ cSlash :: ia = nodePath ++ cSlash :: ib) : a = b := by
   have : ia = ib := by simpa using List.append_cancel_left h
-  exact forkName_injective a b hs hva hvb (by rw [ha, hb, this])
+  exact forkName_injective a b hs hva hvb h1 h1' (by rw [ha, hb, this])
 
 /-- … and the fork parts of the journal names `<fqid>.<journalEnc id>` (the
 replacer pairs as regenerated). -/
 theorem forkJournalName_injective (a b : List Part) (ia ib : Bytes)
-    (hs : sameShape a b = true) (hva : a.all partValid = true) (hvb : b.all partValid = true)
-    (ha : forkIdString Gen.forkIdReenters a = some ia) (hb : forkIdString Gen.forkIdReenters b = some ib)
+    (hs : sameShape a b = true) (hva : a.all partOk = true) (hvb : b.all partOk = true)
+    (h1 : a.length = 1 → a.all partValid = true) (h1' : b.length = 1 → b.all partValid = true)
+    (ha : forkIdString Gen.forkIdReenters Gen.forkIdSkipsEmpty a = some ia) (hb : forkIdString Gen.forkIdReenters Gen.forkIdSkipsEmpty b = some ib)
     (h : journalEnc Gen.journalPairs ia = journalEnc Gen.journalPairs ib) : a = b := by
   have := journal_name_injective ia ib h
-  exact forkName_injective a b hs hva hvb (by rw [ha, hb, this])
+  exact forkName_injective a b hs hva hvb h1 h1' (by rw [ha, hb, this])
 
 -- non-vacuity: a run-time sized array over a map over a static array of 12, two forks of the same shape
 example :
     let ks : List Bytes := [[0x61, 0x2F, 0x62], [0x2E]]
-    let a : List Part := [.arr 2 3 false, .key [0x2E] ks true, .arr 11 12 true]
-    let b : List Part := [.arr 1 3 false, .key [0x61, 0x2F, 0x62] ks true, .arr 0 12 true]
-    sameShape a b = true ∧ a.all partValid = true ∧ b.all partValid = true ∧
-    forkIdString true a ≠ forkIdString true b := by decide
+    let a : List Part := [.empty, .arr 2 3 false, .key [0x2E] ks true, .arr 11 12 true]
+    let b : List Part := [.empty, .arr 1 3 false, .key [0x61, 0x2F, 0x62] ks true, .arr 0 12 true]
+    sameShape a b = true ∧ a.all partOk = true ∧ b.all partOk = true ∧
+    forkIdString true true a ≠ forkIdString true true b := by decide
 
 /-- Negative witness (the `forkId` recursion as found, `start+i+1`): under an
 array part, the map part is skipped, so the forks for keys `a` and `b` of the
 inner map call get the same directory `fork1/fork0`. -/
 theorem array_over_map_dirs_collide_as_found :
-    forkIdString false [.arr 1 3 true, .key [0x61] [[0x61], [0x62]] true] = some [0x66, 0x6F, 0x72, 0x6B, 0x31, 0x2F, 0x66, 0x6F, 0x72, 0x6B, 0x30] ∧
-    forkIdString false [.arr 1 3 true, .key [0x62] [[0x61], [0x62]] true] = some [0x66, 0x6F, 0x72, 0x6B, 0x31, 0x2F, 0x66, 0x6F, 0x72, 0x6B, 0x30] := by
+    forkIdString false false [.arr 1 3 true, .key [0x61] [[0x61], [0x62]] true] = some [0x66, 0x6F, 0x72, 0x6B, 0x31, 0x2F, 0x66, 0x6F, 0x72, 0x6B, 0x30] ∧
+    forkIdString false false [.arr 1 3 true, .key [0x62] [[0x61], [0x62]] true] = some [0x66, 0x6F, 0x72, 0x6B, 0x31, 0x2F, 0x66, 0x6F, 0x72, 0x6B, 0x30] := by
   decide
 
 /-- With the recursion as it is in the working tree the same two forks get
 different directories (`fork1/fork_a`, `fork1/fork_b`). -/
 theorem array_over_map_dirs_differ :
-    forkIdString Gen.forkIdReenters [.arr 1 3 true, .key [0x61] [[0x61], [0x62]] true]
-      ≠ forkIdString Gen.forkIdReenters [.arr 1 3 true, .key [0x62] [[0x61], [0x62]] true] := by decide
+    forkIdString Gen.forkIdReenters Gen.forkIdSkipsEmpty [.arr 1 3 true, .key [0x61] [[0x61], [0x62]] true]
+      ≠ forkIdString Gen.forkIdReenters Gen.forkIdSkipsEmpty [.arr 1 3 true, .key [0x62] [[0x61], [0x62]] true] := by decide
 
 /-! ### Journal file names are parsed back exactly -/
 
